@@ -214,6 +214,9 @@ func mutantProgs(ops map[string]bool, only func(name string) bool) func(emit fun
 						nf := make([]harness.File, len(files), len(files)+1)
 						copy(nf, files)
 						nf[fi] = harness.File{Name: f.Name, Src: progenum.Apply(f.Src, m.Edits)}
+						if m.Helper == "sibling" {
+							nf = append(nf, harness.File{Name: "vm_sibling.go", Src: "package " + k + "\n\n" + m.HelperSrc})
+						}
 						if m.Helper == "pair" {
 							pkgName := k
 							nf = append(nf, harness.File{Name: "vm_helpers.go", Src: "package " + pkgName + "\n" + progenum.PairHelpers})
